@@ -204,6 +204,18 @@ def discovery_variants(level, acc):
         elif variant == "matching":
             if exc is not None or result != EXPECT["get"]:
                 viol.append({"kind": "operation-fails-right-after-discovery", "detail": {**facts, "message": str(exc)[:200]}, "facts": facts})
+        if variant != "matching":
+            # the agent answers properly from now on: the same client works
+            ag.msg_hook = None
+            ag._report = orig_report
+            n0 = len(ag.log)
+            again, exc2 = ops.run_op(client, OPS["get"])
+            facts["second_operation_exception"] = ops.exc_sig(exc2)
+            facts["second_operation_datagrams"] = len(ag.log) - n0
+            if variant == "empty-engine-id" and exc is None:
+                pass  # (an empty engine id that was accepted is judged by C20)
+            elif exc2 is not None or again != EXPECT["get"]:
+                viol.append({"kind": "client-does-not-recover-after-a-refused-discovery-reply", "detail": {**facts, "message": str(exc2)[:200]}, "facts": facts})
         acc.count(evaluations=1, nontrivial=1, states=1, transitions=len(ag.log), traces=1)
         acc.outcome("discovery:%s:%s" % (variant, ops.exc_sig(exc)))
         for v in viol:
